@@ -541,3 +541,74 @@ func constInt(c *core.Ctx, pkgPath, name string) int64 {
 }
 
 func constantInt64(c *types.Const) (int64, bool) { return constant.Int64Val(constant.ToInt(c.Val())) }
+
+// condMust: every feasible path from `from` (nil = entry) to an instruction matching target
+// passes an instruction matching event first, unless it takes an edge that establishes one
+// of the bypass facts (canonical atoms, '*' globs allowed).
+func condMust(c *core.Ctx, fn *ssa.Function, from ssa.Instruction, target, event func(ssa.Instruction) bool, bypass []string) (bool, []core.Step, ssa.Instruction) {
+	q := &core.Q{Fn: fn, NoPass: event, NoEdge: func(e core.Edge) bool {
+		if len(bypass) == 0 {
+			return false
+		}
+		at := c.P.EdgeAtom(e)
+		for _, b := range bypass {
+			if glob(b, at) {
+				return true
+			}
+		}
+		return false
+	}}
+	found, w, hit := q.Reach(from, func(in ssa.Instruction) bool { return !event(in) && target(in) })
+	return !found, w, hit
+}
+
+// isStoreTo matches a store to field Type.field (short type name) whose value description
+// (alternatives joined by '|') matches valGlob ("" = any).
+func isStoreTo(c *core.Ctx, typeField, valGlob string) func(ssa.Instruction) bool {
+	return func(in ssa.Instruction) bool {
+		st, ok := in.(*ssa.Store)
+		if !ok {
+			return false
+		}
+		fa, ok := st.Addr.(*ssa.FieldAddr)
+		if !ok {
+			return false
+		}
+		f := core.FieldOfAddr(fa)
+		if f == nil || fieldKey(fa.X.Type().String(), f.Name()) != typeField {
+			return false
+		}
+		if valGlob == "" {
+			return true
+		}
+		return glob(valGlob, strings.Join(c.P.Prov().Desc(st.Val), "|"))
+	}
+}
+
+// isCallNamed matches Call/Go instructions (not defers) by callee/method name.
+func isCallNamed(name string) func(ssa.Instruction) bool {
+	return core.InstrIs(core.CallsMethodNamed(name, ""))
+}
+
+// isDynCall matches calls through a function value (closure variable / map lookup).
+func isDynCall(in ssa.Instruction) bool {
+	ci, ok := in.(*ssa.Call)
+	if !ok {
+		return false
+	}
+	cc := ci.Common()
+	if cc.IsInvoke() || cc.StaticCallee() != nil {
+		return false
+	}
+	_, isBuiltin := cc.Value.(*ssa.Builtin)
+	return !isBuiltin
+}
+
+func (a *A) checkAt(cond bool, construct, pos, okDetail, badDetail string) bool {
+	if cond {
+		a.okAt(construct, pos, okDetail)
+	} else {
+		a.violAt(construct, pos, badDetail)
+	}
+	return cond
+}
